@@ -308,7 +308,10 @@ def short_branch(b):
 
 def branch_oracle(repo):
     """-> order (ascending), {branch: {builds, anc, lower, head}}"""
-    heads = {b: repo.commits[cid] for b, cid in repo.branches.items()}   # named "origin/..." whatever the remote
+    # (named "origin/..." whatever the remote; only the trunk and the release branches are reported: a ref such as
+    # origin/release-notes or origin/feature/x is somebody's work in progress)
+    heads = {b: repo.commits[cid] for b, cid in repo.branches.items()
+             if short_branch(b) == "master" or b.startswith("origin/release/")}
     order = sorted(heads, key=branch_sort_key)
     tagged = set(repo.tags.values())
     lower = set()
